@@ -3,6 +3,7 @@
 -/
 import ControlModel.Spec.C04
 import ControlModel.Spec.C06
+import ControlModel.Proofs.TaskIds
 
 namespace Own
 
@@ -291,6 +292,74 @@ theorem inv_mesosStart (s : State) (k : EnvId) (h : Inv s) : Inv (mesosStart s k
   · rfl
   · rfl
   · rfl
+
+/-! ### status updates -/
+
+/-- Under the code's guards a status update touches nothing but the status of an entry whose ids are there. -/
+theorem onStatus_code (u : StatusUpd) (t : Task) (ha : t.agent = true) (he : t.executor = true) :
+    t.onStatus TaskIds.codeGuards u = if u.running then { t with active := true } else t := by
+  unfold Task.onStatus
+  split
+  · have h1 : TaskIds.copyId TaskIds.codeGuards.agent t.agent u.agent = t.agent := by
+      rw [ha]; exact TaskIds.copyId_guarded _ _ rfl
+    have h2 : TaskIds.copyId TaskIds.codeGuards.executor t.executor u.executor = t.executor := by
+      rw [he]; exact TaskIds.copyId_guarded _ _ rfl
+    rw [h1, h2]
+  · rfl
+
+/-- The entry the code's `statusUpdate` writes, field by field. -/
+theorem statusUpdate_code_entry (x : TaskId) (u : StatusUpd) (t : Task) :
+    let t' := if decide (t.id = x) && t.agent && t.executor then t.onStatus TaskIds.codeGuards u else t
+    t'.id = t.id ∧ t'.parent = t.parent ∧ t'.idsOk = t.idsOk ∧ t'.isLocked = t.isLocked ∧ t'.owner = t.owner ∧
+    t'.state = t.state ∧ t'.cls = t.cls ∧ t'.host = t.host ∧ (t.sound → t'.sound) ∧ (t.active = true → t'.active = true) := by
+  intro t'
+  by_cases hc : (decide (t.id = x) && t.agent && t.executor) = true
+  · have hc' := hc
+    simp only [Bool.and_eq_true, decide_eq_true_eq] at hc'
+    have e : t' = if u.running then { t with active := true } else t := by
+      show (if decide (t.id = x) && t.agent && t.executor then t.onStatus TaskIds.codeGuards u else t) = _
+      rw [if_pos hc, onStatus_code u t hc'.1.2 hc'.2]
+    rw [e]
+    cases hr : u.running
+    · simp
+    · rw [if_pos rfl]
+      refine ⟨rfl, rfl, rfl, rfl, rfl, rfl, rfl, rfl, ?_, fun _ => rfl⟩
+      intro hs
+      exact ⟨hs.1, hs.2.1, fun _ => ⟨hc'.1.2, hc'.2⟩⟩
+  · have e : t' = t := by
+      show (if decide (t.id = x) && t.agent && t.executor then t.onStatus TaskIds.codeGuards u else t) = _
+      rw [if_neg hc]
+    rw [e]
+    exact ⟨rfl, rfl, rfl, rfl, rfl, rfl, rfl, rfl, id, id⟩
+
+theorem inv_statusUpdate (s : State) (x : TaskId) (u : StatusUpd) (h : Inv s) :
+    Inv (statusUpdate TaskIds.codeGuards s x u) := by
+  apply inv_of_maps h (fun t => if decide (t.id = x) && t.agent && t.executor then t.onStatus TaskIds.codeGuards u else t) id
+  · intro t
+    have e := statusUpdate_code_entry x u t
+    exact ⟨e.1, e.2.2.2.2.2.2.2.2.1, e.2.1⟩
+  · intro E; simp
+  · rfl
+  · simp [statusUpdate]
+  · rfl
+  · rfl
+  · rfl
+
+/-- **A status update is invisible to ownership**: whatever it omits, every roster entry keeps its owner, its
+    lock and its state; environments, the master's table and the KILL log are untouched. -/
+theorem view_statusUpdate (s : State) (x : TaskId) (u : StatusUpd) :
+    viewOf (statusUpdate TaskIds.codeGuards s x u) = viewOf s := by
+  have hr : (statusUpdate TaskIds.codeGuards s x u).roster.map
+        (fun t => ({ task := t.id, owner := t.parent, locked := t.isLocked, state := if t.isLocked then some t.state else none } : RosterRow))
+      = s.roster.map (fun t => ({ task := t.id, owner := t.parent, locked := t.isLocked, state := if t.isLocked then some t.state else none } : RosterRow)) := by
+    simp only [statusUpdate, List.map_map]
+    apply List.map_congr_left
+    intro t _
+    have e := statusUpdate_code_entry x u t
+    simp only [Function.comp]
+    rw [e.1, e.2.1, e.2.2.2.1, e.2.2.2.2.2.1]
+  simp only [viewOf, hr]
+  rfl
 
 end Own
 
@@ -1319,6 +1388,7 @@ theorem inv_step (s : State) (st : Step) (hst : st.isClaim = false) (h : Inv s) 
     | agentLost hh => exact inv_hostLost s hh true h
     | watchError k fails => exact inv_watchError s k fails h
     | killFault ids => exact inv_congr h rfl rfl rfl rfl rfl
+    | statusUpdate t u => exact inv_statusUpdate s t u h
 
 theorem inv_run (s : State) (steps : List Step) (hs : noClaimSteps steps = true) (h : Inv s) : Inv (run s steps) := by
   induction steps generalizing s with
@@ -1563,6 +1633,7 @@ theorem killOk_step (s : State) (st : Step) (h : KillOk s) : KillOk (step s st).
       · rfl
       · split <;> rfl
     | killFault ids => exact killOk_congr h rfl
+    | statusUpdate t u => exact killOk_congr h rfl
 
 theorem killOk_run (s : State) (steps : List Step) (h : KillOk s) : KillOk (run s steps) := by
   induction steps generalizing s with
@@ -1858,6 +1929,7 @@ theorem sub_step (s : State) (st : Step)
           have h1 : Sub s { s with roster := s.roster.map (watchMap E fails) } := sub_of_same rfl rfl
           exact h1.trans (sub_setEnv_state _ _ _)
     | killFault ids => exact sub_of_same rfl rfl
+    | statusUpdate t u => exact sub_of_same rfl rfl
 
 end Own
 
@@ -2171,6 +2243,7 @@ theorem rc_step (s : State) (st : Step) (h : s.reuse = false ∨ s.cfg.unlockUnp
   | agentLost h => exact ⟨rfl, rfl, rfl⟩
   | watchError k fails => simp only [watchError]; split; exact RC.refl s; split <;> exact ⟨rfl, rfl, rfl⟩
   | killFault ids => exact ⟨rfl, rfl, rfl⟩
+  | statusUpdate t u => exact ⟨rfl, rfl, rfl⟩
 
 theorem rc_run (steps : List Step) (s : State) (h : s.reuse = false ∨ s.cfg.unlockUnpaired = false) : RC s (run s steps) := by
   induction steps generalizing s with
@@ -3562,5 +3635,74 @@ theorem createSettle_spares_foreign (s : State) (k : EnvId) (o : SettleOracle) (
     (∀ t' ∈ (createSettle s k o).1.roster, t'.id ∈ E.tasks → t'.parent = some E.id) :=
   ⟨fun t ht hin => h.owned E hE hte t ht hin,
    fun t' ht' hin => (inv_createSettle s k o h).owned E (keepsOthers_createSettle s k o E hE hne) hte t' ht' hin⟩
+
+/-! ### `Task.onStatus` is Model/TaskIds `onStatus` on the identity fields -/
+
+theorem isLocked_fields (t : Task) : t.isLocked = t.fields.locked := by
+  simp [Task.isLocked, Task.idsOk, Task.fields, TaskIds.Fields.locked, Bool.and_assoc]
+
+theorem onStatus_fields (g : TaskIds.Guards) (u : StatusUpd) (t : Task) :
+    (t.onStatus g u).fields = TaskIds.onStatus g u.kind u.carried t.fields := by
+  unfold Task.onStatus StatusUpd.kind StatusUpd.carried
+  cases hr : u.running <;> simp [Task.fields, TaskIds.onStatus]
+
+/-- What a status update does to the lock of a locked roster entry, for every guard configuration. -/
+theorem isLocked_onStatus (g : TaskIds.Guards) (u : StatusUpd) (t : Task) (h : t.isLocked = true) :
+    (t.onStatus g u).isLocked = !TaskIds.unlocks g u.kind u.carried := by
+  rw [isLocked_fields, onStatus_fields]
+  exact TaskIds.locked_onStatus g _ _ _ (by rw [← isLocked_fields]; exact h)
+
+/-- A complete update (both optional fields present: what the AliECS executor sends) is handled alike under every
+    guard configuration. -/
+theorem onStatus_complete (g : TaskIds.Guards) (r : Bool) (t : Task) :
+    t.onStatus g (StatusUpd.complete r) = t.onStatus TaskIds.codeGuards (StatusUpd.complete r) := by
+  unfold Task.onStatus StatusUpd.complete
+  cases r <;> simp [TaskIds.copyId]
+
+/-! ### a sweep of unowned tasks and a locked task -/
+
+/-- doKillTasks on a list of UNLOCKED roster tasks leaves a locked roster entry where it is, does not touch its row at
+    the master and logs no KILL for it. -/
+theorem locked_survives_doKill (s : State) (tk : List Task) (hsub : ∀ u ∈ tk, u ∈ s.roster ∧ u.isLocked = false)
+    (hnd : (s.roster.map (·.id)).Nodup) (t : Task) (ht : t ∈ s.roster) (hl : t.isLocked = true) :
+    t ∈ (doKill s tk).roster ∧ (∀ m ∈ s.master, m.id = t.id → m ∈ (doKill s tk).master) ∧
+    (∀ e ∈ (doKill s tk).killLog, e ∈ s.killLog ∨ e.1 ≠ t.id) := by
+  have hnot : ∀ u ∈ tk, u.id ≠ t.id := by
+    intro u hu hid
+    have : u = t := eq_of_nodup_map _ _ hnd (hsub u hu).1 ht hid
+    subst this
+    rw [(hsub u hu).2] at hl
+    exact Bool.noConfusion hl
+  refine ⟨?_, ?_, ?_⟩
+  · rw [doKill_roster]
+    refine List.mem_append.mpr (Or.inl (List.mem_filter.mpr ⟨ht, ?_⟩))
+    simp only [decide_eq_true_eq, List.mem_map, not_exists, not_and]
+    intro u hu hid
+    exact hnot u hu hid
+  · intro m hm hid
+    simp only [doKill, killMany, List.mem_map]
+    refine ⟨m, hm, ?_⟩
+    rw [if_neg]
+    intro hin
+    obtain ⟨u, hu, hue⟩ := hin
+    exact hnot u (List.mem_filter.mp (List.mem_filter.mp hu).1).1 (hue.trans hid)
+  · intro e he
+    simp only [doKill, List.mem_append, List.mem_map] at he
+    rcases he with he | ⟨u, hu, rfl⟩
+    · exact Or.inl he
+    · exact Or.inr (hnot u (List.mem_filter.mp hu).1)
+
+/-- Cleanup (`ids = []`) and KillTasks spare every locked task. -/
+theorem locked_survives_cleanupTasks (s : State) (ids : List TaskId) (hnd : (s.roster.map (·.id)).Nodup)
+    (t : Task) (ht : t ∈ s.roster) (hl : t.isLocked = true) :
+    t ∈ (cleanupTasks s ids).roster ∧ (∀ m ∈ s.master, m.id = t.id → m ∈ (cleanupTasks s ids).master) ∧
+    (∀ e ∈ (cleanupTasks s ids).killLog, e ∈ s.killLog ∨ e.1 ≠ t.id) := by
+  unfold cleanupTasks
+  split
+  · exact locked_survives_doKill s _ (fun u hu => ⟨(List.mem_filter.mp hu).1, by simpa using (List.mem_filter.mp hu).2⟩) hnd t ht hl
+  · refine locked_survives_doKill s _ (fun u hu => ⟨(List.mem_filter.mp hu).1, ?_⟩) hnd t ht hl
+    have := (List.mem_filter.mp hu).2
+    simp only [Bool.and_eq_true, Bool.not_eq_true', decide_eq_true_eq] at this
+    exact this.1
 
 end Own
